@@ -344,6 +344,15 @@ func runCheck(prop, tier string) int {
 		fmt.Fprintf(os.Stderr, "no check registered for %s\n", prop)
 		return 2
 	}
+	{
+		var keep []Part
+		for _, p := range parts {
+			if p.N > 0 {
+				keep = append(keep, p)
+			}
+		}
+		parts = keep
+	}
 	_ = os.MkdirAll(filepath.Join(verifRoot, ".work"), 0o755)
 	workdir, err := os.MkdirTemp(filepath.Join(verifRoot, ".work"), prop+"-")
 	if err != nil {
